@@ -256,7 +256,12 @@ func (k Keeper) UpdateNSTByBalanceChange(ctx sdk.Context, assetID string, rawDat
 	if err != nil {
 		return err
 	}
-	store := ctx.KVStore(k.storeKey)
+	// The stakers are updated one by one (oracle staker info and, through the delegation keeper,
+	// the staked amounts); the caller only logs an error. All updates are therefore made in one
+	// cache context that is written only if every staker succeeded, so that an error for a later
+	// staker does not leave the earlier ones updated.
+	cc, writeFunc := ctx.CacheContext()
+	store := cc.KVStore(k.storeKey)
 	for _, stakerAddr := range sl.StakerAddrs {
 		// if stakerAddr is not in stakerChanges, then the change would be set to 0 which is expected
 		change := stakerChanges[stakerAddr]
@@ -293,11 +298,11 @@ func (k Keeper) UpdateNSTByBalanceChange(ctx sdk.Context, assetID string, rawDat
 		}
 
 		if delta := int64(balance) - newBalance.Balance; delta != 0 {
-			decimal, _, err := k.getDecimal(ctx, assetID)
+			decimal, _, err := k.getDecimal(cc, assetID)
 			if err != nil {
 				return err
 			}
-			if err := k.delegationKeeper.UpdateNSTBalance(ctx, getStakerID(stakerAddr, chainID), assetID, sdkmath.NewIntWithDecimal(delta, decimal)); err != nil {
+			if err := k.delegationKeeper.UpdateNSTBalance(cc, getStakerID(stakerAddr, chainID), assetID, sdkmath.NewIntWithDecimal(delta, decimal)); err != nil {
 				return err
 			}
 			newBalance.Balance = int64(balance)
@@ -307,6 +312,7 @@ func (k Keeper) UpdateNSTByBalanceChange(ctx sdk.Context, assetID string, rawDat
 		bz := k.cdc.MustMarshal(stakerInfo)
 		store.Set(key, bz)
 	}
+	writeFunc()
 	return nil
 }
 
